@@ -65,11 +65,11 @@ package decode
 //@ filelet isDnf (or (= dnf (fnid buffer.decodeReal)) (= dnf (fnid buffer.decodeCoordinate)) (= dnf (fnid buffer.decodeZeroToOne)))
 
 //@ contract isNaNOrInfinity
-//@   needs ffv0
+//@   needs ffv0 dstmon
 //@   ensures [C13.nonfinite C02.nonfinite] (= result (or (fp.isNaN f) (fp.isInfinite f)))
 
 //@ contract decodeNumber
-//@   needs ffv0
+//@   needs ffv0 dstmon
 //@   requires [dnf] isDnf
 //@   modifies tr.decode.printer
 //@   let k (spec.numN B P (len src))
@@ -83,7 +83,7 @@ package decode
 // decodeCoordinates is expanded at its call sites: its loop runs len(coords) <= 6 times and is unrolled completely
 // (an unwinding obligation proves the bound), so no closed form over runs of numbers is needed.
 //@ contract decodeCoordinates
-//@   needs ffv0
+//@   needs ffv0 dstmon
 //@   inline
 //@   unroll 0 6
 //@   let K (bvadd rangeindex (int 1))
@@ -95,7 +95,7 @@ package decode
 //@   invariant 0 [coords.cp.values] thorough (and (=> (bvslt (int 0) K) (= (at coords (int 0)) (draw.c0 B0 P0 E0))) (=> (bvslt (int 1) K) (= (at coords (int 1)) (draw.c1 B0 P0 E0))) (=> (bvslt (int 2) K) (= (at coords (int 2)) (draw.c2 B0 P0 E0))) (=> (bvslt (int 3) K) (= (at coords (int 3)) (draw.c3 B0 P0 E0))) (=> (bvslt (int 4) K) (= (at coords (int 4)) (draw.c4 B0 P0 E0))) (=> (bvslt (int 5) K) (= (at coords (int 5)) (draw.c5 B0 P0 E0))))
 
 //@ contract decodeAngle
-//@   needs ffv0
+//@   needs ffv0 dstmon
 //@   modifies tr.decode.printer
 //@   let k (spec.numN B P (len src))
 //@   ensures [C02.angle.err C03.angle.err] (= result.2 (ite (= k (int 0)) (errval errInvalidNumber) nil.Iface))
@@ -106,7 +106,7 @@ package decode
 //@   ensures [C11.angle.print] (ite (or (= p 0) (= k (int 0))) (= TRP (old TRP)) (and ((_ is cons.decode.printer) TRP) (= (decode.printer.call.a0 (hd.decode.printer TRP)) (ffv0.take src k)) (= (tl.decode.printer TRP) (old TRP))))
 
 //@ contract decodeArcToFlags
-//@   needs ffv0
+//@   needs ffv0 dstmon
 //@   modifies tr.decode.printer
 //@   let k (spec.numN B P (len src))
 //@   ensures [C02.flags.err C03.flags.err] (= result.3 (ite (= k (int 0)) (errval errInvalidNumber) nil.Iface))
@@ -119,10 +119,11 @@ package decode
 // ---- drawing mode (C02, C03, C11)
 
 //@ contract decodeDrawing
-//@   needs ffv0
+//@   needs ffv0 dstmon
 //@   requires [nonempty] (bvugt (len src) (int 0))
 //@   split thorough (bvlshr (at src (int 0)) #x04) in #x00 #x01 #x02 #x03 #x04 #x05 #x06 #x07 #x08 #x09 #x0a #x0b #x0c #x0d #x0e
-//@   modifies tr.ivg.Destination tr.decode.printer
+//@   modifies tr.ivg.Destination tr.decode.printer mon.dst
+//@   ensures [C02.mono] (and (dst.mono (old mon.dst) mon.dst) (=> (= dst nil.Iface) (= mon.dst (old mon.dst))))
 //@   let op (at src (int 0))
 //@   let g (draw.group op)
 //@   let Q (bvadd P (int 1))
@@ -131,11 +132,12 @@ package decode
 //@   ensures [C02.draw.err C03.draw.err] (=> (bvuge op #xe0) (= err (ite (draw1.reserved op) (errval errUnsupportedDrawingOpcode) (ite ok1 nil.Iface (errval errInvalidNumber)))))
 //@   ensures [C03.draw.single.event C02.draw.single.event] thorough (=> (bvuge op #xe0) (= TRD (ite (or (= dst nil.Iface) (draw1.reserved op) (not ok1)) (old TRD) (cons.ivg.Destination (draw1.event B Q E op dst) (old TRD)))))
 //@   ensures [C02.draw.single.mode C03.draw.single.mode] (=> (and (bvuge op #xe0) (= err nil.Iface)) (and (= mf (ite (= op #xe1) (fnid decodeStyling) (fnid decodeDrawing))) (= (rgn src1) (rgn src)) (= (bvadd (off src1) (len src1)) E) (bvult P (off src1)) (bvule (off src1) E)))
+//@   ensures [C02.draw.nil-dst C11.draw.nil-dst] (=> (= dst nil.Iface) (= TRD (old TRD)))
 //@   ensures [C02.draw.rep.err C03.draw.rep.err] (=> (bvult op #xe0) (or (= err nil.Iface) (= err (errval errInvalidNumber))))
 //@   ensures [C03.draw.rep.trunc] internal thorough (=> (and (bvult op #xb0) (not (= err nil.Iface))) (not (draw.repOK B (off phi:src) E g)))
 //@   ensures [C02.draw.rep.rest C03.draw.rep.rest] (=> (and (bvult op #xe0) (= err nil.Iface)) (and (= mf (fnid decodeDrawing)) (= (rgn src1) (rgn src)) (= (bvadd (off src1) (len src1)) E) (= (bvadd (off src1) (cap src1)) (bvadd P (cap src))) (bvult P (off src1)) (bvule (off src1) E)))
 //@   let E0 (bvadd (off src@0) (len src@0))
-//@   invariant 0 [draw.reps C03.draw.reps] (and (bvult (at src@0 (int 0)) #xe0) (= nReps (draw.reps (at src@0 (int 0)))) (bvsle (int 0) i) (bvsle i nReps) (= (rgn src) (rgn src@0)) (= E E0) (bvult (off src@0) (off src)) (bvule (off src) E0) (= (bvadd (off src) (cap src)) (bvadd (off src@0) (cap src@0))))
+//@   invariant 0 [draw.reps C03.draw.reps] (and (bvult (at src@0 (int 0)) #xe0) (= nReps (draw.reps (at src@0 (int 0)))) (bvsle (int 0) i) (bvsle i nReps) (= (rgn src) (rgn src@0)) (= E E0) (bvult (off src@0) (off src)) (bvule (off src) E0) (= (bvadd (off src) (cap src)) (bvadd (off src@0) (cap src@0))) (dst.mono (old mon.dst) mon.dst) (=> (= dst nil.Iface) (and (= TRD (old TRD)) (= mon.dst (old mon.dst)))))
 //@   at call ivg.Destination.AbsLineTo assert [C03.draw.dispatch.AbsLineTo] (and (bvult (draw.group (at src@0 (int 0))) #x02) (= arg0 coords[0]) (= arg1 coords[1]))
 //@   at call ivg.Destination.RelLineTo assert [C03.draw.dispatch.RelLineTo] (and (and (bvuge (draw.group (at src@0 (int 0))) #x02) (bvult (draw.group (at src@0 (int 0))) #x04)) (= arg0 coords[0]) (= arg1 coords[1]))
 //@   at call ivg.Destination.AbsSmoothQuadTo assert [C03.draw.dispatch.AbsSmoothQuadTo] (and (= (draw.group (at src@0 (int 0))) #x04) (= arg0 coords[0]) (= arg1 coords[1]))
@@ -170,45 +172,100 @@ package decode
 //@ filelet stylEvent (= TRD (ite (or (= dst nil.Iface) (not stylOK)) (old TRD) (cons.ivg.Destination (styl.event B P E dst) (old TRD))))
 
 //@ contract decodeSetCReg
-//@   needs ffv0
+//@   needs ffv0 dstmon
 //@   requires [nonempty] (bvugt (len src) (int 0))
 //@   requires [opcode] (and (= opcode (at src (int 0))) (bvuge opcode #x80) (bvult opcode #xa8))
-//@   modifies tr.ivg.Destination tr.decode.printer
+//@   modifies tr.ivg.Destination tr.decode.printer mon.dst
+//@   ensures [C02.mono] (and (dst.mono (old mon.dst) mon.dst) (=> (= dst nil.Iface) (= mon.dst (old mon.dst))))
 //@   ensures [C02.creg.err C03.creg.err] (= result.2 stylErr)
 //@   ensures [C02.creg.rest C03.creg.rest] (=> stylOK (and stylRest stylMode))
 //@   ensures [C03.creg.event C02.creg.event] stylEvent
 
 //@ contract decodeSetNReg
-//@   needs ffv0
+//@   needs ffv0 dstmon
 //@   requires [nonempty] (bvugt (len src) (int 0))
 //@   requires [opcode] (and (= opcode (at src (int 0))) (bvuge opcode #xa8) (bvult opcode #xc0))
-//@   modifies tr.ivg.Destination tr.decode.printer
+//@   modifies tr.ivg.Destination tr.decode.printer mon.dst
+//@   ensures [C02.mono] (and (dst.mono (old mon.dst) mon.dst) (=> (= dst nil.Iface) (= mon.dst (old mon.dst))))
 //@   ensures [C02.nreg.err C03.nreg.err] (= result.2 stylErr)
 //@   ensures [C02.nreg.rest C03.nreg.rest] (=> stylOK (and stylRest stylMode))
 //@   ensures [C03.nreg.event C02.nreg.event] stylEvent
 
 //@ contract decodeStartPath
-//@   needs ffv0
+//@   needs ffv0 dstmon
 //@   requires [nonempty] (bvugt (len src) (int 0))
 //@   requires [opcode] (and (= opcode (at src (int 0))) (bvuge opcode #xc0) (bvult opcode #xc7))
-//@   modifies tr.ivg.Destination tr.decode.printer
+//@   modifies tr.ivg.Destination tr.decode.printer mon.dst
+//@   ensures [C02.mono] (and (dst.mono (old mon.dst) mon.dst) (=> (= dst nil.Iface) (= mon.dst (old mon.dst))))
 //@   ensures [C02.start.err C03.start.err] (= result.2 stylErr)
 //@   ensures [C02.start.rest C03.start.rest] (=> stylOK (and stylRest stylMode))
 //@   ensures [C03.start.event C02.start.event] stylEvent
 
 //@ contract decodeSetLOD
-//@   needs ffv0
+//@   needs ffv0 dstmon
 //@   requires [nonempty] (bvugt (len src) (int 0))
 //@   requires [opcode] (= (at src (int 0)) #xc7)
-//@   modifies tr.ivg.Destination tr.decode.printer
+//@   modifies tr.ivg.Destination tr.decode.printer mon.dst
+//@   ensures [C02.mono] (and (dst.mono (old mon.dst) mon.dst) (=> (= dst nil.Iface) (= mon.dst (old mon.dst))))
 //@   ensures [C02.lod.err C03.lod.err] (= result.2 stylErr)
 //@   ensures [C02.lod.rest C03.lod.rest] (=> stylOK (and stylRest stylMode))
 //@   ensures [C03.lod.event C02.lod.event] stylEvent
 
 //@ contract decodeStyling
-//@   needs ffv0
+//@   needs ffv0 dstmon
 //@   requires [nonempty] (bvugt (len src) (int 0))
-//@   modifies tr.ivg.Destination tr.decode.printer
+//@   modifies tr.ivg.Destination tr.decode.printer mon.dst
+//@   ensures [C02.mono] (and (dst.mono (old mon.dst) mon.dst) (=> (= dst nil.Iface) (= mon.dst (old mon.dst))))
 //@   ensures [C02.styl.err C03.styl.err] (= result.2 stylErr)
 //@   ensures [C02.styl.rest C03.styl.rest] (=> stylOK (and stylRest stylMode))
 //@   ensures [C03.styl.event C02.styl.event] stylEvent
+
+// ---- metadata (C13, C02)
+
+//@ contract decodeMetadataChunk
+//@   needs metadata
+//@   modifies *m tr.decode.printer
+//@   split (meta.mid B P E) in #x00000000 #x00000001
+//@   let cls (meta.err B P E)
+//@   ensures [C13.chunk.verdict C02.chunk.verdict C03.chunk.verdict] (= err (ite (= cls 0) nil.Iface (ite (= cls 1) (errval errInvalidMetadataChunkLength) (ite (= cls 2) (errval errInvalidMetadataIdentifier) (ite (= cls 3) (errval errUnsupportedMetadataIdentifier) (ite (= cls 4) (errval errInvalidViewBox) (ite (= cls 5) (errval errInvalidSuggestedPalette) (errval errInconsistentMetadataChunkLength))))))))
+//@   ensures [C13.chunk.ok C02.chunk.ok] (= (= err nil.Iface) (= cls 0))
+//@   ensures [C13.chunk.rest C02.chunk.rest] (=> (= cls 0) (and (= (rgn src1) (rgn src)) (= (off src1) (meta.dataEnd B P E)) (= (bvadd (off src1) (len src1)) E) (= (bvadd (off src1) (cap src1)) (bvadd P (cap src))) (bvult P (off src1)) (bvule (off src1) E)))
+//@   ensures [C13.chunk.viewbox] (=> (and (= cls 0) (= (meta.mid B P E) #x00000000)) (and (= m.ViewBox.MinX (meta.vbMinX B P E)) (= m.ViewBox.MinY (meta.vbMinY B P E)) (= m.ViewBox.MaxX (meta.vbMaxX B P E)) (= m.ViewBox.MaxY (meta.vbMaxY B P E)) (= m.Palette (old m.Palette))))
+//@   let b0 (select B (meta.p2 B P E))
+//@   ensures [C13.chunk.palette] internal (=> (and (= cls 0) (= (meta.mid B P E) #x00000001)) (and (= m.ViewBox (old m.ViewBox)) (forall ((k!m (_ BitVec 64))) (=> (bvult k!m #x0000000000000040) (= (select m.Palette k!m) (ite (bvult k!m (meta.palN1 b0)) (meta.palEntry B P E k!m) (select (old m.Palette) k!m)))))))
+//@   let B0 (arr src@0)
+//@   let P0 (off src@0)
+//@   let E0 (bvadd (off src@0) (len src@0))
+//@   let bb (select B0 (meta.p2 B0 P0 E0))
+//@   at call decodeNumber#0 assert [meta.vb.cp0] (and (= (rgn arg1) (rgn src@0)) (= (bvadd (off arg1) (len arg1)) E0) (= (bvadd (off arg1) (cap arg1)) (bvadd P0 (cap src@0))) (= (off arg1) (meta.p2 B0 P0 E0)))
+//@   at call decodeNumber#1 assert [meta.vb.cp1] (and (= (rgn arg1) (rgn src@0)) (= (bvadd (off arg1) (len arg1)) E0) (= (bvadd (off arg1) (cap arg1)) (bvadd P0 (cap src@0))) (= (off arg1) (draw.p1 B0 (meta.p2 B0 P0 E0) E0)))
+//@   at call decodeNumber#2 assert [meta.vb.cp2] (and (= (rgn arg1) (rgn src@0)) (= (bvadd (off arg1) (len arg1)) E0) (= (bvadd (off arg1) (cap arg1)) (bvadd P0 (cap src@0))) (= (off arg1) (draw.p2 B0 (meta.p2 B0 P0 E0) E0)))
+//@   at call decodeNumber#3 assert [meta.vb.cp3] (and (= (rgn arg1) (rgn src@0)) (= (bvadd (off arg1) (len arg1)) E0) (= (bvadd (off arg1) (cap arg1)) (bvadd P0 (cap src@0))) (= (off arg1) (draw.p3 B0 (meta.p2 B0 P0 E0) E0)))
+//@   invariant 0 [meta.pal.cursor] (and (= (meta.mid B0 P0 E0) #x00000001) (ffv0.numOK B0 P0 E0) (ffv0.numOK B0 (meta.p1 B0 P0 E0) E0) (bvult (meta.p2 B0 P0 E0) E0) (= length:int (meta.palN1 bb)) (bvsle (int 0) i) (bvsle i length:int) (= (rgn src) (rgn src@0)) (= E E0) (= (bvadd (off src) (cap src)) (bvadd P0 (cap src@0))) (= (off src) (bvadd (meta.palP3 B0 P0 E0) (bvmul i (meta.palW bb)))) (bvule (off src) E0) (= lenSrcWant (bvsub (bvsub E0 (meta.p1 B0 P0 E0)) (meta.len B0 P0))))
+//@   invariant 0 [meta.pal.decode] (= decode (ite (= (meta.palFmt bb) #x00) (fnid buffer.decodeColor1) (ite (= (meta.palFmt bb) #x01) (fnid buffer.decodeColor2) (ite (= (meta.palFmt bb) #x02) (fnid buffer.decodeColor3Direct) (fnid buffer.decodeColor4)))))
+//@   invariant 0 [meta.pal.entries] (and (= m.ViewBox (old m.ViewBox)) (forall ((k!m (_ BitVec 64))) (=> (bvult k!m #x0000000000000040) (= (select m.Palette k!m) (ite (bvslt k!m i) (meta.palEntry B0 P0 E0 k!m) (select (old m.Palette) k!m))))))
+
+
+// ---- the decoder proper (C02, C03, C13, C14)
+
+//@ contract decode
+//@   needs dstmon opaque:metadata opaque:ffv0
+//@   requires [opts-nonnil] (forall ((k!o (_ BitVec 64))) (=> (bvult k!o (len opts)) (not (= (at opts k!o) 0))))
+//@   modifies *m tr.ivg.Destination tr.decode.printer mon.dst
+//@   ensures [C02.mono] (and (dst.mono (old mon.dst) mon.dst) (=> (= dst nil.Iface) (= mon.dst (old mon.dst))))
+//@   ensures [C02.no-early C13.no-early] (=> (not (dst.started (old mon.dst))) (dst.clean mon.dst))
+//@   ensures [C13.metadata-only C02.metadata-only] (=> metadataOnly (= TRD (old TRD)))
+//@   ensures [C02.nil-dst C13.nil-dst] (=> (= dst nil.Iface) (= TRD (old TRD)))
+//@   let palValid (forall ((k!v (_ BitVec 64))) (=> (bvult k!v #x0000000000000040) (spec.validPremul (select m.Palette k!v))))
+//@   ensures [C13.all-chunks C02.all-chunks] internal (=> (= err nil.Iface) (= phi:nMetadataChunks #x00000000))
+//@   at call ivg.Destination.Reset assert [C13.reset-args C14.reset-args] (and (= arg0 m.ViewBox) (= arg1 m.Palette))
+//@   at call ivg.Destination.Reset assert [C14.reset-palette-valid] (forall ((k!v (_ BitVec 64))) (=> (bvult k!v #x0000000000000040) (spec.validPremul (select arg1 k!v))))
+//@   let E0 (bvadd (off src@0) (len src@0))
+//@   step 0 [C13.chunk.step.ok C03.chunk.step.ok] (= (meta.err (arr src@0) (head (off src)) E0) 0)
+//@   step 0 [C13.chunk.step.next C03.chunk.step.next] (= (off src) (meta.dataEnd (arr src@0) (head (off src)) E0))
+//@   step 0 [C13.chunk.step.count C03.chunk.step.count] (= nMetadataChunks (bvsub (head nMetadataChunks) #x00000001))
+//@   invariant 0 [decode.chunks C02.chunks.no-event C13.chunks.no-event] (and (= TRD (old TRD)) (= mon.dst (old mon.dst)) (= (rgn src) (rgn src@0)) (= E E0) (bvule (off src) E0))
+//@   invariant 1 [decode.opts C14.opts.no-event] (and (= TRD (old TRD)) (= mon.dst (old mon.dst)))
+//@   invariant 2 [decode.sanitise C14.sanitise] (and (= TRD (old TRD)) (= mon.dst (old mon.dst)) (forall ((k!v (_ BitVec 64))) (=> (bvsle k!v rangeindex) (=> (bvult k!v #x0000000000000040) (spec.validPremul (select m.Palette k!v))))))
+//@   invariant 3 [decode.loop C02.loop] (and (or (= mf (fnid decodeStyling)) (= mf (fnid decodeDrawing))) (= (rgn src) (rgn src@0)) (= E E0) (bvule (off src) E0) (=> (not (dst.started (old mon.dst))) (dst.clean mon.dst)) (dst.mono (old mon.dst) mon.dst) (or (= dst nil.Iface) (dst.started mon.dst)) (=> (= dst nil.Iface) (and (= TRD (old TRD)) (= mon.dst (old mon.dst)))))
+//@   step 3 [C02.progress C03.progress] (bvult (head (off src)) (off src))
